@@ -91,7 +91,6 @@ KINDS = {
     # immutable bindings named by the property
     "const":      ("mkSym SConstant false RNone", "S"),
     "gconst":     ("mkSym SConstant false RNone", "S"),
-    "foridx":     ("mkSym SVariable true RNone", "i32"),
     "catch":      ("mkSym SVariable true RNone", "S"),
     "immparam":   ("mkSym SParameter false RImm", "&S"),
     "immrecv":    ("mkSym SReceiver false RImm", "&S"),
@@ -105,8 +104,6 @@ KINDS = {
     "mutlocal":   ("mkSym SVariable false RMut", "&'S"),
     "valparam":   ("mkSym SParameter false RNone", "S"),
     "valrecv":    ("mkSym SReceiver false RNone", "S"),
-    "forval":     ("mkSym SVariable false RNone", "i32"),
-    "forone":     ("mkSym SVariable false RNone", "i32"),
     "constmutref": ("mkSym SConstant false RMut", "&'S"),
     # reference-field family
     "letH":       ("mkSym SVariable false RNone", "H"),
@@ -114,10 +111,37 @@ KINDS = {
     "immparamH":  ("mkSym SParameter false RImm", "&H"),
     "mutparamH":  ("mkSym SParameter false RMut", "&'H"),
 }
-IMM_KINDS = ["const", "gconst", "foridx", "catch", "immparam", "immrecv", "immlocal", "constimmref"]
-CTL_KINDS = ["let", "glet", "mutparam", "mutrecv", "mutlocal", "valparam", "valrecv", "forval", "forone", "constmutref"]
+# for statements: kind name  for<role>:<source>:<shape>.  The scope of the body is computed INSIDE Coq by the port of
+# collectForStmt / markForIteratorIndexReadOnly (`for_syms decls`), root variable = 0, the other variable = 1, `_` = None.
+FOR_SOURCES = {            # source -> (setup statement, iterated expression)
+    "lit":   ("", "[10, 20, 30]"),
+    "arr":   ("    let src: [4]i32 = [10, 20, 30, 40];\n", "src"),
+    "dyn":   ("    let src: []i32 = [1, 2, 3];\n", "src"),
+    "range": ("", "0..3"),
+    "map":   ("    let src := { 1 => 2, 3 => 4 } as map[i32]i32;\n", "src"),
+}
+FOR_SHAPES = {             # shape -> (header variables, coq decl list, is the root the index of a two-variable loop?)
+    "idx_named": ("rt, xv", "[Some 0%nat; Some 1%nat]", True),      # for rt, xv in e
+    "idx_blank": ("rt, _",  "[Some 0%nat; None]", True),            # for rt, _ in e
+    "val_named": ("ix, rt", "[Some 1%nat; Some 0%nat]", False),     # for ix, rt in e   (value variable)
+    "val_blank": ("_, rt",  "[None; Some 0%nat]", False),           # for _, rt in e
+    "one":       ("rt",     "[Some 0%nat]", False),                 # for rt in e
+}
+FOR_IMM = ["foridx:%s:%s" % (src, sh) for src in ("lit", "arr", "dyn", "range", "map") for sh in ("idx_named", "idx_blank")]
+FOR_CTL = ["forval:lit:val_named", "forval:arr:val_blank", "forval:dyn:val_blank", "forval:range:val_named",
+           "forval:map:val_named", "forone:range:one", "forone:dyn:one"]
+for _k in FOR_IMM + FOR_CTL:
+    KINDS[_k] = ("for_syms " + FOR_SHAPES[_k.split(":")[2]][1], "i32")
+
+def scope_expr(kind):
+    v = KINDS[kind][0]
+    return v if v.startswith("for_syms") else "[(0%%nat, %s)]" % v
+
+IMM_KINDS = ["const", "gconst", "catch", "immparam", "immrecv", "immlocal", "constimmref"] + FOR_IMM
+CTL_KINDS = ["let", "glet", "mutparam", "mutrecv", "mutlocal", "valparam", "valrecv", "constmutref"] + FOR_CTL
 H_KINDS = ["letH", "constH", "immparamH", "mutparamH"]
-RO_KINDS = {"const", "gconst", "foridx", "catch", "constimmref", "constmutref", "constH"}
+# read-only bindings by the property text (the for index in BOTH shapes: `for i, v in e` and `for i, _ in e`)
+RO_KINDS = {"const", "gconst", "catch", "constimmref", "constmutref", "constH"} | set(FOR_IMM)
 CONTEXTS = ["function", "method", "closure", "loop", "match"]
 FORMS = ["FAssign", "FCompound", "FIncDec", "FBorrowMut", "FPassBorrow", "FPassRef", "FCallMut"]
 
@@ -175,12 +199,10 @@ def program(kind, ctx, stmt):
         return pre + enclose("", "", "    let rt := mkS();\n" + body)
     if kind == "glet":
         return pre + "let rt := %s;\n" % S_LIT + enclose("", "", body)
-    if kind == "foridx":
-        return pre + enclose("", "", "    for rt, xv in [10, 20, 30] {\n%s    }\n" % body)
-    if kind == "forval":
-        return pre + enclose("", "", "    for ix, rt in [10, 20, 30] {\n%s    }\n" % body)
-    if kind == "forone":
-        return pre + enclose("", "", "    for rt in 0..2 {\n%s    }\n" % body)
+    if kind.startswith("for"):
+        _, src, shape = kind.split(":")
+        setup, expr = FOR_SOURCES[src]
+        return pre + enclose("", "", "%s    for %s in %s {\n%s    }\n" % (setup, FOR_SHAPES[shape][0], expr, body))
     if kind == "catch":
         return pre + enclose("", "", "    let rs := mayfail(0) catch rt {\n%s    } 0;\n" % body)
     if kind == "immparam":
@@ -345,7 +367,10 @@ def select(run, cases, n):
         # keep every (kind, form, path length) class, sample inside
         cls = {}
         for c in chosen:
-            cls.setdefault((c["kind"], c["form"], len(c["steps"])), []).append(c)
+            # for-loop kinds have only the paths rt / (rt): one class per (kind, form), so that every shape of the
+            # for statement (index named / `_`, five sources) meets every mutation form in every run
+            plen = 0 if c["kind"].startswith("for") else len(c["steps"])
+            cls.setdefault((c["kind"], c["form"], plen), []).append(c)
         keep = [v[rng.randrange(len(v))] for _, v in sorted(cls.items(), key=repr)]
         pool = [c for c in chosen if c not in keep]
         rng.shuffle(pool)
@@ -363,7 +388,7 @@ def coq_cases(cases, obs, shard):
              "Definition cases : list case := ["]
     rows = []
     for i, c in cases:
-        rows.append("  ((%d)%%Z, [(0%%nat, %s)], %s, %s, (%d)%%Z)" % (i, KINDS[c["kind"]][0], c["form"],
+        rows.append("  ((%d)%%Z, %s, %s, %s, (%d)%%Z)" % (i, scope_expr(c["kind"]), c["form"],
                                                                   coq_place(c["steps"], c["types"]), obs[i]))
     lines.append(";\n".join(rows))
     lines.append("].")
@@ -377,11 +402,13 @@ def main(run):
     cases = all_cases(3, contexts, run.rng)
     total = len(cases)
     if not thorough:
-        cases = select(run, cases, 600)
-    run.rule = ("one-mutation programs: root kind (8 immutable: const, module const, for index, catch variable, &S parameter / "
-                "receiver / local, const &S; 10 mutable controls; 4 roots with reference-typed fields) x access path of <= 3 steps "
+        cases = select(run, cases, 700)
+    run.rule = ("one-mutation programs: root kind (17 immutable: const, module const, catch variable, &S parameter / receiver / "
+                "local, const &S, and the for index in the shapes `for i, v in e` / `for i, _ in e` over a literal, a fixed array, "
+                "a dynamic array, a range and a map; 15 mutable controls incl. `for _, v` / `for i, v` value variables and "
+                "one-variable loops; 4 roots with reference-typed fields) x access path of <= 3 steps "
                 "(field / fixed, dynamic, map index / paren) x 7 mutation forms x 5 contexts; thorough enumerates the product, "
-                "quick keeps every (kind, form, path length) class and samples (kind, path, form) triples in a seeded context up to 600 programs; a case is distinct by "
+                "quick keeps every (kind, form, path length) class and samples (kind, path, form) triples in a seeded context up to 700 programs; a case is distinct by "
                 "(kind, path, form, context)")
     run.extra["product_size"] = total
     run.extra["exhaustive"] = bool(thorough)
@@ -529,7 +556,7 @@ def main(run):
                       "port and implementation disagree on the diagnostic class (implementation: %s): %s on %s root, place %s, in %s"
                       % (CLASS_NAME[obs[i]], c["form"], c["kind"], render_place("rt", c["steps"]), c["ctx"]),
                       {"program": srcs[i], "observed_class": CLASS_NAME[obs[i]], "observed": res[i]["out"][:1500],
-                       "coq_place": coq_place(c["steps"], c["types"]), "coq_sym": KINDS[c["kind"]][0],
+                       "coq_place": coq_place(c["steps"], c["types"]), "coq_scope": scope_expr(c["kind"]),
                        "correspondence": "Models.Mut.diagnose vs first diagnostic"}, no_input=True)
     if not ok and not run.violations:
         where, log = run.proof_failure
